@@ -31,6 +31,9 @@ type Commander struct {
 	lastTXID   *big.Int
 	referencer *Referencer
 	mu         sync.Mutex
+	// appendMu makes "allocate the transaction id, chain the log, hand it to the batcher" one step,
+	// so that ids, hash chain and persistence order all follow the same order
+	appendMu sync.Mutex
 
 	lastLog *ledger.ChainedLog
 	monitor bus.Monitor
@@ -138,6 +141,9 @@ func (commander *Commander) exec(ctx context.Context, parameters Parameters, scr
 			return nil, nil, NewErrNoPostings()
 		}
 
+		commander.appendMu.Lock()
+		defer commander.appendMu.Unlock()
+
 		tx := ledger.NewTransaction().
 			WithPostings(result.Postings...).
 			WithMetadata(result.Metadata).
@@ -196,6 +202,9 @@ func (commander *Commander) SaveMeta(ctx context.Context, parameters Parameters,
 		default:
 			panic(errors.Errorf("unknown target type '%s'", targetType))
 		}
+
+		commander.appendMu.Lock()
+		defer commander.appendMu.Unlock()
 
 		return executionContext.AppendLog(ctx, log)
 	})
@@ -302,6 +311,9 @@ func (commander *Commander) DeleteMetadata(ctx context.Context, parameters Param
 		default:
 			panic(errors.Errorf("unknown target type '%s'", targetType))
 		}
+
+		commander.appendMu.Lock()
+		defer commander.appendMu.Unlock()
 
 		return executionContext.AppendLog(ctx, log)
 	})
